@@ -217,6 +217,10 @@ def check(case, ctx):
                     if engine[4:] != [text]:
                         w.call('econv', engine[0], 'e', FMT['html'], FIX)
                         engine[4:] = [text]
+                    # (other writers walk the same tree first: an export must leave the parse as it found it, whichever writer it was)
+                    for pre in (['itmz', 'opml'], ['fodt'], [], ['latex', 'itmz'], ['beamer'], ['opml', 'fodt', 'html'])[(n + lang) % 6]:
+                        w.call('eexport', engine[0], FMT[pre])
+                        ctx.cls('export_preceded_by_another_writer')
                     rr = w.call('eexport', engine[0], FMT[fmt])
                     rr = [rr[0], rr[1] + b'\n', text.encode('utf-8', 'surrogateescape')]      # mmd_engine_convert = parse + this export + one newline
                     ctx.cls('export_without_reparse')
